@@ -714,6 +714,7 @@ UF = {
     "log": z3.Function("log_", R, R),
     "sqrt": z3.Function("sqrt_", R, R),
     "pow": z3.Function("pow_", R, R, R),
+    "gammaincc": z3.Function("gammaincc_", R, R, R),
     "lgamma": z3.Function("lgamma_", R, R),
     "erf": z3.Function("erf_", R, R),
     "sin": z3.Function("sin_", R, R),
@@ -781,6 +782,16 @@ def pow_(a, b):
     elif not is_z(a):
         pass
     return UF["pow"](rv(a), rv(b))
+
+
+def gammaincc_(a, x):
+    if _anyx(a, x):
+        raise Unsupported("gammaincc of a possibly non-finite value")
+    a, x = as_num(a), as_num(x)
+    if not is_z(a) and not is_z(x):
+        import torch
+        return Fraction(float(torch.special.gammaincc(torch.tensor(float(a), dtype=torch.float64), torch.tensor(float(x), dtype=torch.float64))))
+    return UF["gammaincc"](rv(a), rv(x))
 
 
 # ------------------------------------------------------------------- dtype casts
